@@ -1,10 +1,10 @@
 #!/bin/sh
 # Run every kept seeded change against the quick check of its own property (scratch worktrees, 3 at a time);
 # prints one line per seed: <seed>|<property>|rc=<exit code of the check>|<first violation signature>
-cd /verif || exit 2
+cd "$(dirname "$0")/.." || exit 2; HERE=$(pwd)
 one() {
   s=$1; id=${s%%-*}
-  out=$(SEED_LINES=3 XPMC_WORKERS=${XPMC_WORKERS:-8} tools/try_seed.sh /verif/seeded/$s/patch.diff quick $id 2>&1)
+  out=$(SEED_LINES=3 XPMC_WORKERS=${XPMC_WORKERS:-8} tools/try_seed.sh "$HERE/seeded/$s/patch.diff" quick $id 2>&1)
   rc=$(printf '%s\n' "$out" | grep "^== $id" | sed 's/.*rc=\([0-9]*\).*/\1/')
   sig=$(printf '%s\n' "$out" | grep -m1 'signature:' | sed 's/^ *signature: //' | tr '\n' ' ' | cut -c1-110)
   [ -z "$rc" ] && sig=$(printf '%s\n' "$out" | head -1)
